@@ -1,5 +1,51 @@
 package main
 
-import "github.com/ollama/ollama/server/internal/client/ollama"
+import (
+	"bytes"
+	"context"
+	"encoding/json"
+	"errors"
+	"io"
+	"log/slog"
+	"net/http/httptest"
+	"strings"
 
-func main() { ollama.ZZVerifC09() }
+	"github.com/ollama/ollama/server/internal/client/ollama"
+	"github.com/ollama/ollama/server/internal/registry"
+)
+
+// pullVia drives the real /api/pull handler of registry.Local (streaming mode: the retry loop around
+// Registry.Pull) and reports what a client would conclude from the response.
+func pullVia(ctx context.Context, reg *ollama.Registry, name string) error {
+	local := &registry.Local{Client: reg, Logger: slog.New(slog.NewTextHandler(io.Discard, nil))}
+	body, _ := json.Marshal(map[string]any{"model": name, "stream": true})
+	req := httptest.NewRequest("POST", "/api/pull", bytes.NewReader(body)).WithContext(ctx)
+	rec := httptest.NewRecorder()
+	local.ServeHTTP(rec, req)
+	last := ""
+	for _, ln := range strings.Split(strings.TrimSpace(rec.Body.String()), "\n") {
+		if strings.TrimSpace(ln) != "" {
+			last = ln
+		}
+	}
+	var st struct {
+		Status string `json:"status"`
+		Error  string `json:"error"`
+	}
+	json.Unmarshal([]byte(last), &st)
+	if rec.Code == 200 && st.Status == "success" {
+		return nil
+	}
+	if st.Error != "" {
+		return errors.New(st.Error)
+	}
+	if err := ctx.Err(); err != nil {
+		return err
+	}
+	return errors.New("pull handler: status " + rec.Result().Status + " last line " + last)
+}
+
+func main() {
+	ollama.ZZPullVia = pullVia
+	ollama.ZZVerifC09()
+}
